@@ -46,7 +46,7 @@ def main():
     out = os.path.join(ROOT, "seeded", name)
     os.makedirs(out, exist_ok=True)
     for f in os.listdir(d):
-        if f == "patch.diff" or f == "notes.md" or (f.endswith(".rs")) or f in ("run_demo.sh", "harness_lib.rs", "placement.json"):
+        if f == "patch.diff" or f == "notes.md" or (f.endswith(".rs")) or f in ("run_demo.sh", "harness_lib.rs", "placement.json", "demo_setup.diff") or f.endswith(".pest"):
             shutil.copy2(os.path.join(d, f), os.path.join(out, f))
         elif os.path.isdir(os.path.join(d, f)) and os.path.exists(os.path.join(d, f, "Cargo.toml")):
             shutil.copytree(os.path.join(d, f), os.path.join(out, f), dirs_exist_ok=True, ignore=shutil.ignore_patterns("target", "Cargo.lock"))
